@@ -372,7 +372,9 @@ def run_case(case, ctx, verbose=False):
             shape1 = {p: v[0] for p, v in vis1.items()}
             if case["structure"]:
                 must = shape0 != shape1
-                mode_changed = any(p in vis1 and vis0[p][3] != vis1[p][3] for p in vis0)
+                # (also a chmod of an entry that was renamed or created in the same step: its path is not in vis0)
+                mode_changed = any(p in vis1 and vis0[p][3] != vis1[p][3] for p in vis0) or \
+                    any(e.get("k") == "chmod" for e in edits)
                 # a chmod is invisible to llbuild's stat comparison but is part of the structure
                 # signature: it surfaces at the next observable change of that entry, whenever that
                 # is. After a chmod the rest of the history is don't-care for 'must not re-run'.
